@@ -9,19 +9,19 @@ CHECKS = {
     "C01": dict(
         engine="VSE",
         technique="bounded exhaustive enumeration of metamodel derivations (deviation-bounded value-space exploration), each replayed on converter.structure/unstructure and judged by the reference model",
-        text="Every derivation of the metamodel grammar with <=k deviations from the minimal and maximal value of every structure, alias and envelope root is structured and re-serialised by the real converter; the output must be a normal form of the input under some strict reading; also every union site x alternative x shape (maximal alternatives, heterogeneous arrays, arrays of 101 and 1025 elements, other member orders, key-name strings) embedded in its owner roots, and every True test vector. Exhaustive within the stated k and alphabets; thorough tier repeats the quick exploration under two more hash seeds.",
+        text="Every derivation of the metamodel grammar with <=k deviations from the minimal and maximal value of every structure, alias and envelope root is structured and re-serialised by the real converter; the output must be a normal form of the input under some strict reading; also every union site x alternative x shape (maximal alternatives, heterogeneous arrays, arrays of 101 and 1025 elements, other member orders, key-name strings) embedded in its owner roots, every True test vector, and JSON nested 600 / 150 levels deep at every position where any JSON is valid. Exhaustive within the stated k and alphabets; thorough tier repeats the quick exploration under two more hash seeds.",
         note="Trusted: MM reference semantics (lspverif/mm.py), alphabets of DESIGN 2.2, compositionality of converters (deviation bound per root).",
         ref="3/C01"),
     "C03": dict(
         engine="VSE",
         technique="bounded exhaustive enumeration of metamodel derivations, each structured by the real converter and the whole object graph walked against annotations and metamodel",
-        text="Every derivation (<=k deviations, both base points) of every root, plus every union site x alternative x shape (single-element and heterogeneous arrays), is structured; the returned object graph is walked attribute by attribute against the resolved attrs annotations and, in lock-step with the input, against the metamodel (at unions: instance of an alternative valid for the input; LSPAny positions unchanged); single closed-enum edits that make a value invalid are structured too: whatever structuring returns must be well-typed; histories: the same shape structured at two union positions, and results edited by the caller before everything is structured again (no container shared between results).",
+        text="Every derivation (<=k deviations, both base points) of every root, plus every union site x alternative x shape (single-element and heterogeneous arrays), is structured; the returned object graph is walked attribute by attribute against the resolved attrs annotations and, in lock-step with the input, against the metamodel (at unions: instance of an alternative valid for the input; LSPAny positions unchanged); single closed-enum edits that make a value invalid are structured too: whatever structuring returns must be well-typed; histories: the same shape structured at two union positions, and results edited by the caller before everything is structured again (no container shared between results); an application-defined subclass of every structure class must be returned as an instance of that subclass.",
         note="Trusted: MM, alphabets, compositionality; values that fail to structure belong to C01.",
         ref="3/C03"),
     "C14": dict(
         engine="VSE",
         technique="exhaustive enumeration of union sites x alternatives x bounded shapes, each embedded in its owner root and structured by the real converter",
-        text="All union occurrences of the metamodel (declared or-types and references to or-aliases) x every alternative x {cost<=k neighbourhood, maximal value, ordered pairs for arrays, arrays of 101 and 1025 elements, members in reversed and rotated order, key-name strings at string alternatives}; each must structure without error into an instance of an alternative valid for the value; a (site, alternative) without execution fails as vacuous.",
+        text="All union occurrences of the metamodel (declared or-types and references to or-aliases) x every alternative x {cost<=k neighbourhood, maximal value, ordered pairs for arrays, arrays of 101 and 1025 elements, members in reversed and rotated order, key-name and look-alike strings ("42", "007", "true", "[1, 2]" ...) at string alternatives}; each must structure without error into an instance of an alternative valid for the value; a (site, alternative) without execution fails as vacuous.",
         note="Trusted: MM; unions of partialResult/registrationOptions/errorData have no generated class to structure into and are listed in the evidence.",
         ref="3/C14"),
     "C02": dict(
@@ -51,13 +51,13 @@ CHECKS = {
     "C13": dict(
         engine="VSE",
         technique="exhaustive comparison of enum member multisets plus enumeration of every (enum use site x value) executed on the real converter",
-        text="40 enumerations compared with the metamodel as multisets (both directions); every reference to an enumeration x every declared value (+custom values for open enums) must structure and round-trip in its owner root; outside values at closed enums must be rejected.",
+        text="40 enumerations compared with the metamodel as multisets (both directions); every reference to an enumeration x every declared value (+custom values for open enums, incl. the names of declared values and other-case spellings) must structure and round-trip in its owner root; outside values at closed enums must be rejected.",
         note="Trusted: MM validity for deciding that an outside value makes the message invalid.",
         ref="3/C13"),
     "C15": dict(
         engine="VSE",
         technique="bounded exhaustive enumeration of derivations x protocol-object nodes x fresh property names x payloads, differential oracle against the unextended value",
-        text="Every derivation (k<=1/2 + maximal) and every union-site shape (single-element and heterogeneous arrays) x every protocol-object node x fresh names (incl. look-alikes, fragments and concatenations of declared and sibling-alternative names, the empty name) x payloads: structuring the extended value must succeed, equal the original result and re-serialise identically.",
+        text="Every derivation (k<=1/2 + maximal) and every union-site shape (single-element and heterogeneous arrays) x every protocol-object node x fresh names (incl. the Python attribute spelling of every declared name, look-alikes, fragments and concatenations of declared and sibling-alternative names, the empty name) x payloads (incl. one nested 600 levels deep): structuring the extended value must succeed, equal the original result and re-serialise identically.",
         note="Names are declared nowhere in the metamodel; data positions (LSPAny, maps) excluded.",
         ref="3/C15"),
     "C20": dict(
@@ -87,19 +87,19 @@ CHECKS = {
     "C16": dict(
         engine="HIST",
         technique="explicit-state breadth-first exploration of generator run histories (runs, stale files, fresh directories) with set-order and uuid seams, on the real entry point; plus real CLI processes per hash seed",
-        text="Per plugin all histories up to length 3 (dotnet/testdata quick: 2) over {Run(model A | evolved model B x set order x uuid stream), StaleOwned (incl. generated names with other bytes), CorruptOwned, CrlfOwned, StaleForeign, Fresh}; after every Run the owned files are byte-identical to the reference run, foreign files untouched, no injected uuid in the output; CLI runs under several PYTHONHASHSEEDs, also for two-file model lists (extension declarations; alias literals where the plugin accepts them); cross-plugin histories (every ordered pair/triple of plugins in one process on one model path).",
+        text="Per plugin all histories up to length 3 (dotnet/testdata quick: 2) over {Run(model A | evolved model B | (dotnet, testdata) a case-only rename K of A x set order x uuid stream), StaleOwned (incl. generated names with other bytes), CorruptOwned, CrlfOwned, StaleForeign, Fresh}; after every Run the owned files are byte-identical to the reference run, foreign files untouched, no injected uuid in the output; CLI runs under several PYTHONHASHSEEDs, also for two-file model lists (extension declarations; alias literals where the plugin accepts them); cross-plugin histories (every ordered pair/triple of plugins in one process on one model path).",
         note="Assumes the generator reads only model files and its output/test directories; dotnet/testdata use small model slices in the quick tier.",
         ref="3/C16"),
     "C18": dict(
         engine="HIST",
         technique="exhaustive enumeration of single schema-valid additions (read-back), document lists up to length 3 (merge), single structural edits at every JSON node (equality) and single schema-violating edits per definition x rule x site x plugin (gate), all on the real loader and entry point",
-        text="(a) committed model + every (definition x optional property) addition and every kind of type expression read back losslessly; (b) all lists <=3 over 4 documents merged = concatenation, inputs not altered, repeated loads equal; (c) every declaration x every single structural edit, whole models differing only at a section end: equality verdicts, no raise; (d) every schema definition x rule kind x site class x 5 plugins, the violating document written to a path that held a valid model in the previous run, and given as first / last / middle file of a model list: command fails, no plugin called, nothing written.",
+        text="(a) committed model + every (definition x optional property) addition and every kind of type expression read back losslessly (also annotation strings with CRLF, tabs, outer blanks, non-ASCII); (b) all lists <=3 over 4 documents merged = concatenation, inputs not altered, repeated loads equal; (c) every declaration x every single structural edit, whole models differing only at a section end: equality verdicts, no raise; (d) every schema definition x rule kind x site class x 5 plugins, the violating document written to a path that held a valid model in the previous run, and given as first / last / middle file of a model list, and run through the real CLI under python -O: command fails, no plugin called, nothing written.",
         note="Structural = everything except annotation fields; plugins observed through recording wrappers on their public generate entry point.",
         ref="3/C18"),
     "C19": dict(
         engine="SCHED",
         technique="stateless preemption-bounded exploration of all interleavings of real threads at line granularity of the package modules (iterative context bounding), plus exhaustive enumeration of converter-creation histories in fresh processes",
-        text="N=2/3 real threads do get_converter()+battery as first use under a cooperative scheduler (settrace line events, cooperative replacement of package locks, deadlock detection); every schedule within the preemption bound is executed and compared with the sequential reference. All creation histories up to length 3/4 over {fresh, user-supplied, detailed_validation off, forbid_extra_keys, re-register, user structure+unstructure hooks, drop-and-collect, creation interrupted by an exception} in freshly forked processes, plus 100 sequential creations and three drop-and-recreate histories of 50-60 events. Every execution is forked from a pristine import of the package; bounds are iterated (0, 1, 2 ...) under a wall-clock cap and the evidence states the highest completed bound.",
+        text="N=2/3 real threads do get_converter()+battery as first use under a cooperative scheduler (settrace line events, cooperative replacement of package locks, deadlock detection); every schedule within the preemption bound is executed and compared with the sequential reference. All creation histories up to length 3/4 over {fresh, user-supplied, detailed_validation off, forbid_extra_keys, omit_if_default, re-register, user structure+unstructure hooks, drop-and-collect, creation interrupted by an exception} in freshly forked processes, plus 100 sequential creations and three drop-and-recreate histories of 50-60 events; every observation starts with freshly defined application subclasses of two package classes. Every execution is forked from a pristine import of the package; bounds are iterated (0, 1, 2 ...) under a wall-clock cap and the evidence states the highest completed bound.",
         note="Library code (attrs/cattrs/typing) is atomic; switches only at line boundaries of lsprotocol's own modules (of the generated types.py: only functions that write module-level state); functions audited (AST) as converter-local run atomically; locks created by package code are cooperative.",
         ref="3/C19"),
     "C17": dict(
